@@ -2,6 +2,7 @@
 From CV Require Import Base Consts Token PostAction Env Loop.
 From Coq Require Import Permutation.
 From CVP Require Import Loop_frames Seq_lemmas Env_lemmas C01_attr C02_deliver.
+From CVP Require Import C02_poll.
 Import ListNotations.
 Open Scope N_scope.
 
@@ -76,3 +77,24 @@ Example C02_delivery_nonvacuous :
   let b := run (fun _ => []) (fun _ => []) (pre ++ [CDispatch 0%Z [4294967296; 1]]) in
   length (fst (poll (en a) 0%Z [4294967296; 1])) = 2%nat /\ (Loop.cbn a 1, Loop.cbn a 2) = (0, 0)%nat /\ (Loop.cbn b 1, Loop.cbn b 2) = (1, 1)%nat.
 Proof. vm_compute. repeat split. Qed.
+
+(* Synthetic events never replace the poll: every dispatch whose before_sleep hooks succeeded asks the poller - whatever the hooks produced -
+   and hands synthetic ++ polled to process_events; with C02_ok_batch... every one of them is then processed. *)
+Theorem C02_synthetic_events_never_replace_the_poll : forall scr bscr s t order s1 polled e2 s4,
+  before_sleep_loop bscr s (lifecycle s) = (s1, BSOk) ->
+  poll (en s1) t order = (polled, e2) ->
+  before_handle_loop (emit (set_en s1 e2) (L T_BATCH (zsort (map ev_code polled)))) (lifecycle (emit (set_en s1 e2) (L T_BATCH (zsort (map ev_code polled))))) polled = (s4, true) ->
+  dispatch scr bscr s t order =
+    let (s5, ok2) := process_events scr (set_synth s4 []) (synth s4 ++ polled) in
+    if halted s5 then s5
+    else if negb ok2 then emit s5 (L T_DISP [t; DISP_ERR])
+    else let s6 := run_idles scr (set_idles s5 []) (idles s5) in if halted s6 then s6 else emit s6 (L T_DISP [t; DISP_OK]).
+Proof. exact dispatch_always_polls. Qed.
+(* met by a real history: a lifecycle source whose before_sleep produces a synthetic event, and a ready fd source: ONE dispatch calls both *)
+Example C02_synthetic_and_polled_in_one_dispatch :
+  let pre := [CAct (AInsert 1 (SComp true None [mkGen 10 (mkInt true false) Level None false] None));
+              CAct (AInsert 2 (SComp false None [mkGen 11 (mkInt true false) Level None false] None)); CAct (AFdWrite 11 1)] in
+  let b := run (fun _ => []) (fun h => if h =? 1 then [1] else []) (pre ++ [CDispatch 0%Z []]) in
+  (Loop.cbn b 1, Loop.cbn b 2) = (1, 1)%nat.
+Proof. vm_compute. reflexivity. Qed.
+Print Assumptions C02_synthetic_events_never_replace_the_poll.
